@@ -158,7 +158,7 @@ def run_jobs(jobs, timeout=600):
     [t.join() for t in ths]
     res = {}
     for out in outs:
-        for line in (out or "").splitlines():
+        for line in (out or "").split("\n"):      # not splitlines(): U+0085, U+2028 ... occur inside JSON strings
             k = line.find("@@RESULT@@")
             if k >= 0:
                 r = json.loads(line[k + 10:])
